@@ -63,12 +63,12 @@ Definition sink_req := (Z * chip * list (option Z))%type.
    for every core n of its allocation [a, b) of the core resource, else the single label None *)
 Definition expected_routes (v : Z) (cons : list (Z * Z)) (allocs : list (Z * (Z * Z)))
   : list (option Z) :=
-  match rev (filter (fun vr => fst vr =? v) cons) with
-  | (_, r) :: _ => [Some r]
-  | [] => match zassoc v allocs with
-          | Some (a, b) => map (fun n => Some (6 + n)) (map (fun i => a + i) (zrange (b - a)))
-          | None => [None]
-          end
+  match last (map (fun vr => Some (snd vr)) (filter (fun vr => fst vr =? v) cons)) None with
+  | Some r => [Some r]
+  | None => match zassoc v allocs with
+            | Some (a, b) => map (fun n => Some (6 + n)) (map (fun i => a + i) (zrange (b - a)))
+            | None => [None]
+            end
   end.
 
 Definition sink_reqs (sinks : list Z) (pl : list (Z * chip)) (cons : list (Z * Z))
